@@ -65,7 +65,9 @@ impl Case {
         let mut t = String::new();
         let tag = if neutral { "--- " } else { "---@" };
         if self.meta {
-            t.push_str(&format!("{tag}meta\n"));
+            // kept in the raw text too: `---@meta` also changes the analysis itself (e.g. duplicate classes);
+            // the raw run of a meta case is placed outside every workspace, where the meta gate is inert
+            t.push_str("---@meta\n");
         }
         for c in &self.file_enable {
             t.push_str(&format!("{tag}diagnostic enable: {c}\n"));
@@ -251,7 +253,7 @@ pub fn run(args: &Args, report: &mut Report) {
         let (rawtext, text) = (case.text(true), case.text(false));
         let rc = case.rc_json();
         let r = vh_common::catch(std::panic::AssertUnwindSafe(|| {
-            let raw = world.run(rc_of(&all_on), 'm', &rawtext);
+            let raw = world.run(rc_of(&all_on), if case.meta { 'o' } else { 'm' }, &rawtext);
             let actual = world.run(rc_of(&rc), case.place, &text);
             (raw, actual)
         }));
@@ -404,7 +406,13 @@ pub fn run(args: &Args, report: &mut Report) {
             fails.push(format!("diagnostics.enable = false but {} diagnostics reported", out.len()));
         }
         if let Some(first) = fails.first() {
-            let class = if case.meta && !case.file_enable.is_empty() { Some("meta-file-enable") } else { None };
+            let class = if case.meta && case.place == 'o' {
+                Some("meta-outside-workspace")
+            } else if case.meta && !case.file_enable.is_empty() {
+                Some("meta-file-enable")
+            } else {
+                None
+            };
             report.oracle_failure(json!({"input": input, "what": first, "all": fails, "class": class}));
         }
         report.add("raw_diagnostics", r.raw.len() as u64);
